@@ -7,7 +7,7 @@ import (
 
 func init() {
 	Register(&Scenario{Prop: "C02", Name: "converge-after-heal", Run: scenC02, SoftParks: true, Weight: 1,
-		Rule: "2-4 writer replicas of one database (type drawn per run); 3-12 (thorough 3-36) writes interleaved with kernel steps under drop/dup/reorder of announcements and direct-channel payloads, link cuts/heals, block fetches that end with an error (1 run in 3: pending fetches failed by the kernel; 1 in 3: the first 1-3, 1-8 or 1-20 fetches, counted over all replicas, of about half the entries), crash or clean stop + restart (open + Load(-1); 1 restart in 4 goes on without Load: the store merges and writes on a fresh log, after which only 'every replica holds every write' is judged, and the unloaded store is not owed what it had held before, which a Load would show); final phase: writes stop, crashed peers restart, every link is cut until both sides observed it, then all links heal and no further fault occurs; oracle: within 180 virtual seconds and 6000 kernel steps the world is at rest and every replica holds every acknowledged write and all replicas show equal state; non-trivial = at least one fault fired and at least one entry reached some replica only after the final heal; writes include bursts of 2-3 concurrent writers on one replica (stepped through the write path, or free-running under seeded yields)"})
+		Rule: "2-4 writer replicas of one database (type drawn per run); 3-12 (thorough 3-36) writes interleaved with kernel steps under drop/dup/reorder of announcements and direct-channel payloads, link cuts/heals, block fetches that end with an error (1 run in 3: pending fetches failed by the kernel; 1 in 3: the first 1-3, 1-8 or 1-20 fetches, counted over all replicas, of about half the entries), crash or clean stop + restart (open + Load(-1); 1 restart in 4 goes on without Load: the store merges and writes on a fresh log, after which only 'every replica holds every write' is judged, and the unloaded store is not owed what it had held before, which a Load would show); one operation in fourteen is a round on a healthy network (every replica up, links up, membership settled, no faults): two replicas write at the same moment and 30 virtual seconds later every replica holds both writes, from the announcements alone; final phase: writes stop, crashed peers restart, every link is cut until both sides observed it, then all links heal and no further fault occurs; oracle: within 180 virtual seconds and 6000 kernel steps the world is at rest and every replica holds every acknowledged write and all replicas show equal state; non-trivial = at least one fault fired and at least one entry reached some replica only after the final heal; writes include bursts of 2-3 concurrent writers on one replica (stepped through the write path, or free-running under seeded yields)"})
 }
 
 func scenC02(k *K) {
@@ -39,7 +39,58 @@ func scenC02(k *K) {
 	unloaded := false
 	onDisk := map[int]map[string]bool{}
 	for i := 0; i < nops; i++ {
-		switch k.C.Weighted([]int{8, 1, 2, 2}) {
+		switch k.C.Weighted([]int{8, 1, 2, 2, 1}) {
+		case 4:
+			// a round on a healthy network: every replica up, all links up and the membership
+			// settled, no drops, reordering, stalls or failing fetches during and after; two
+			// replicas write at the same moment (their announcements may reach a third one in
+			// the same quantum); 30 virtual seconds later every replica holds both writes, from
+			// the announcements alone (no head exchange follows)
+			up := 0
+			for _, st := range c.Stores {
+				if st != nil {
+					up++
+				}
+			}
+			if up == n && n >= 2 && !unloaded {
+				savedF, savedGap := k.F, c.GapFill
+				c.GapFill = false
+				for a := 0; a < n; a++ {
+					for b := a + 1; b < n; b++ {
+						k.Heal(a, b)
+					}
+				}
+				k.F = BenignCfg()
+				k.Settle(8*time.Second, 400, nil)
+				k.F = BenignCfg()
+				k.F.Burst = 4
+				w1 := k.C.Intn(n)
+				w2 := (w1 + 1 + k.C.Intn(n-1)) % n
+				var recs []*WriteRec
+				for _, node := range []int{w1, w2} {
+					if wr := c.RandomWrite(node); wr != nil {
+						recs = append(recs, wr)
+					}
+				}
+				// deliveries and fetch completions one at a time or several in one quantum
+				for j := 0; j < 120; j++ {
+					if en, _ := k.PendingCount(); en == 0 && j > 10 {
+						break
+					}
+					k.Step()
+				}
+				k.Settle(30*time.Second, 1500, nil)
+				for _, wr := range recs {
+					for i, st := range c.Stores {
+						if st != nil && !LogHashSet(st)[wr.Hash] {
+							rs, _ := ReplStats(st)
+							k.Failf("C02/announcement-not-acted-on", "on a healthy network n%d wrote %s (another replica wrote at the same moment); 30 virtual seconds later n%d has not got it (replicator %+v; pending=%v)", wr.Node, wr.Name, i, rs, k.PendingDesc())
+						}
+					}
+				}
+				k.W.Stat("round-on-a-healthy-network")
+				k.F, c.GapFill = savedF, savedGap
+			}
 		case 3:
 			// 2-3 concurrent writers on one replica, stepped through the write path (or
 			// free-running under seeded yields) while announcements are lost or held
